@@ -54,6 +54,7 @@ type consScenario struct {
 	Later          [][]sarama.VRec // appended after the subscription (start = newest)
 	Aborted        [][]sarama.VSimAborted
 	LSO            []int64 // -1 = high watermark
+	Holes          [][]int64 // per partition: offsets a log cleaner removed (never the last record of the initial log)
 	Version        sarama.KafkaVersion
 	Magic          int8
 	Codec          int8
@@ -154,9 +155,15 @@ func visible(sc *consScenario, p int, log []sarama.VRec, from int64) []sarama.VR
 			}
 		}
 	}
+	holes := map[int64]bool{}
+	if p < len(sc.Holes) {
+		for _, o := range sc.Holes[p] {
+			holes[o] = true
+		}
+	}
 	var out []sarama.VRec
 	for _, r := range log {
-		if r.Offset < from || r.Offset >= limit || r.Control || aborted[r.Offset] {
+		if r.Offset < from || r.Offset >= limit || r.Control || aborted[r.Offset] || holes[r.Offset] {
 			continue
 		}
 		out = append(out, r)
@@ -179,6 +186,9 @@ func runCons(sc *consScenario, rng *rand.Rand) *consResult {
 	full := make([][]sarama.VRec, sc.Parts)
 	for p := 0; p < sc.Parts; p++ {
 		sim.Append("t", int32(p), sc.Logs[p])
+		if p < len(sc.Holes) && len(sc.Holes[p]) > 0 {
+			sim.SetHoles("t", int32(p), sc.Holes[p])
+		}
 		lg, _ := sim.Log("t", int32(p))
 		full[p] = lg
 		if sc.Transactional {
@@ -546,6 +556,9 @@ func judgeCons(prop string, res *consResult) proto.Rec {
 		got := res.got[p]
 		rec.Obs["delivered"] += int64(len(got))
 		rec.Obs["expected"] += int64(len(exp))
+		if p < len(sc.Holes) {
+			rec.Obs["records_removed_by_compaction"] += int64(len(sc.Holes[p]))
+		}
 		// batch max timestamps for LogAppendTime expectations are not modelled: LogAppend cases compare against the served batch (skip ts)
 		for i, g := range got {
 			if i >= len(exp) {
@@ -857,6 +870,7 @@ func consScenarioFor(prop, tier string, rng *rand.Rand) *consScenario {
 		sc.FetchDefault = int32(64 << uint(rng.Intn(7))) // 64 B … 4 KiB
 		sc.HonourMax = true
 	}
+	compacted := rng.Intn(4) == 0
 	for p := 0; p < sc.Parts; p++ {
 		n := rng.Intn(120)
 		if rng.Intn(10) == 0 {
@@ -873,6 +887,16 @@ func consScenarioFor(prop, tier string, rng *rand.Rand) *consScenario {
 		for i := range lg {
 			lg[i].Offset = sc.Base + int64(i)
 		}
+		// a compacted partition: a third of the records (never the last one) are gone
+		var holes []int64
+		if prop != "C11" && compacted {
+			for i := 0; i+1 < len(lg); i++ {
+				if rng.Intn(3) == 0 {
+					holes = append(holes, lg[i].Offset)
+				}
+			}
+		}
+		sc.Holes = append(sc.Holes, holes)
 		sc.Logs = append(sc.Logs, lg)
 		sc.Aborted = append(sc.Aborted, ab)
 		sc.LSO = append(sc.LSO, lso)
